@@ -168,6 +168,7 @@ package mat
 
 //@ func VecDense.DivElemVec props: C04 C05
 //@ option timeout=40000
+//@ option dead-return-ok
 //@ requires wfVD(v) && hasType(a, *VecDense) && hasType(b, *VecDense) && wfVD(unbox(a, *VecDense)) && wfVD(unbox(b, *VecDense))
 //@ option may-panic
 //@ modifies v
